@@ -127,7 +127,42 @@ def c05(kind, case, r):
 
 
 # ---------------------------------------------------------------- C06
+def c06_file(case, r):
+    """file-based executor (the property quantifies over all executor modes)"""
+    canon = lambda i: case["calls"][i - 1].get("same_as", i)  # noqa
+    ct = cancelled_true(r)
+    subs = submitted_ids(r)
+    bodies = {lab[1] for en, pick, lab in r["trace"] if lab[0] == "body"}
+    for i in ct:
+        others = [j for j in subs if j != i and canon(j) == canon(i) and j not in ct]
+        if canon(i) in bodies and not others:
+            return tag("file mode: cancel() returned True for call %d but its function was executed (a started call is never marked "
+                       "running, and a call cancelled while queued is launched all the same)" % i, "D22")
+        if r["futures"].get(str(i)) != "cancelled":
+            return "file mode: cancel() returned True for call %d but its future ends as %s" % (i, r["futures"].get(str(i)))
+    fdead = r["ents"].get("F", [None, None])[1]
+    if fdead:
+        why = "file mode: the loop thread died with %s; calls %r are lost" % (
+            fdead, [i for i in subs if not done_state(r["futures"].get(str(i), "pending"))])
+        return tag(why, "D22") if ct else why
+    for s in r.get("snaps", []):
+        if s["op"][0] == "shutdown" and s["op"][2]:
+            started = {lab[1] for en, pick, lab in r["trace"][:s["step"]] if lab[0] == "body"}
+            for i in subs:
+                if i not in ct and canon(i) in started and r["futures"].get(str(i), "pending") == "pending" \
+                        and r["verdict"] in ("done", "quiescent", "deadlock"):
+                    return tag("file mode: shutdown(cancel_futures=True) terminated call %d, which had already started; its future "
+                               "stays pending for ever" % i, "D26")
+    for i in subs:
+        st = r["futures"].get(str(i), "pending")
+        if st.startswith("res:") and st != "res:v%d" % canon(i):
+            return "file mode: future %d holds %s" % (i, st)
+    return None
+
+
 def c06(kind, case, r):
+    if case.get("mode") == "file":
+        return c06_file(case, r)
     bodies = {lab[1] for en, pick, lab in r["trace"] if lab[0] == "body"}
     for i in cancelled_true(r):
         if i in bodies:
